@@ -108,6 +108,10 @@ impl ParserOfModuleLocals {
 }
 
 impl Visit for ParserOfModuleLocals {
+    // only declarations at module level are the module's: a type declared inside a function body,
+    // a block or a namespace belongs to that scope
+    fn visit_block_stmt(&mut self, _n: &swc_ecma_ast::BlockStmt) {}
+    fn visit_ts_module_decl(&mut self, _n: &swc_ecma_ast::TsModuleDecl) {}
     fn visit_ts_type_alias_decl(&mut self, n: &TsTypeAliasDecl) {
         self.handle_type_alias(n);
     }
